@@ -1,3 +1,453 @@
-//! C15 — not built yet.
+//! C15 — typed objects round-trip through their dictionary form without losing entries.
+//!
+//! For every typed model with a reader and a writer (schema table in `c15_schema.rs`) dictionaries are generated from
+//! the schema into a real `pdf::file::Storage` (the library's own `Updater` + `Resolve`), then
+//!   p0 → T::from_primitive → to_primitive = p1 → T::from_primitive → to_primitive = p2
+//! (a) p1 ≡ p2 (fixpoint; structural, references followed through the store, Integer(n) ≡ Number(n), order irrelevant);
+//! (b) for models that keep unrecognised entries: every entry of p0 is present in p1 with an equal value, up to omitted
+//!     defaults and integer ≡ real; no panic anywhere.
+use super::c15_cmp::{render, Cmp, Diff, Mode};
+use super::c15_gen::*;
+use super::c15_schema::*;
+use crate::doc::{error_fields, root_kind};
+use crate::panicmon::{guard, PanicRec};
+use crate::par::par_for;
+use crate::rng::{fnv, Rng};
 use crate::run::Run;
-pub fn run(_run: &Run) { eprintln!("C15: check not built yet"); std::process::exit(2); }
+use crate::tape::{shrink, Src};
+use pdf::content::{Content, FormXObject, Matrix};
+use pdf::enc::{CCITTFaxDecodeParams, DCTDecodeParams, JBIG2DecodeParams, LZWFlateParams};
+use pdf::encoding::{BaseEncoding, Encoding};
+use pdf::error::PdfError;
+use pdf::file::Trailer;
+use pdf::font::{CIDFont, CidToGidMap, Font, FontDescriptor, FontStream3, FontStretch, FontType, FontTypeExt, TFont, Type0Font};
+use pdf::object::*;
+use pdf::primitive::{Date, Dictionary, Name, PdfStream, PdfString, Primitive};
+use pdf::xref::XRefInfo;
+use serde_json::{json, Value};
+use std::collections::HashMap;
+
+pub enum Fail {
+    ReadErr(PdfError),
+    ReadPanic(PanicRec),
+    WriteErr(PdfError),
+    WritePanic(PanicRec),
+}
+
+/// one pass through the typed model: read with the store's resolver, write with the store as updater
+fn rt<T: Object + ObjectWrite>(p: &Primitive, st: &mut St) -> Result<Primitive, Fail> {
+    let v = match guard(|| { let r = st.resolver(); T::from_primitive(p.clone(), &r) }) {
+        Err(pa) => return Err(Fail::ReadPanic(pa)),
+        Ok(Err(e)) => return Err(Fail::ReadErr(e)),
+        Ok(Ok(v)) => v,
+    };
+    match guard(|| v.to_primitive(st)) {
+        Err(pa) => Err(Fail::WritePanic(pa)),
+        Ok(Err(e)) => Err(Fail::WriteErr(e)),
+        Ok(Ok(p1)) => Ok(p1),
+    }
+}
+
+type RtFn = fn(&Primitive, &mut St) -> Result<Primitive, Fail>;
+
+pub struct Target {
+    pub name: &'static str,
+    pub k: K,
+    pub rt: RtFn,
+    /// the model keeps unrecognised entries: part (b) of the statement applies
+    pub keeps_entries: bool,
+}
+
+fn targets() -> Vec<Target> {
+    let mut v: Vec<Target> = Vec::new();
+    macro_rules! t {
+        ($name:expr, $k:expr, $ty:ty, $ca:expr) => { v.push(Target { name: $name, k: $k, rt: rt::<$ty>, keeps_entries: $ca }) };
+    }
+    let b = |k: K| Box::new(k);
+    // derived struct models
+    t!("Catalog", K::M("Catalog"), Catalog, false);
+    t!("PageTree", K::M("PageTree"), PageTree, false);
+    t!("Page", K::M("Page"), Page, true);
+    t!("PageLabel", K::M("PageLabel"), PageLabel, false);
+    t!("LageLabel", K::M("LageLabel"), LageLabel, false);
+    t!("Resources", K::M("Resources"), Resources, false);
+    t!("PatternDict", K::M("PatternDict"), PatternDict, false);
+    t!("GraphicsStateParameters", K::M("GraphicsStateParameters"), GraphicsStateParameters, true);
+    t!("PostScriptDict", K::M("PostScriptDict"), PostScriptDict, true);
+    t!("ImageDict", K::M("ImageDict"), ImageDict, true);
+    t!("FormDict", K::M("FormDict"), FormDict, true);
+    t!("InteractiveFormDictionary", K::M("InteractiveFormDictionary"), InteractiveFormDictionary, false);
+    t!("SeedValueDictionary", K::M("SeedValueDictionary"), SeedValueDictionary, true);
+    t!("SignatureDictionary", K::M("SignatureDictionary"), SignatureDictionary, true);
+    t!("SignatureReferenceDictionary", K::M("SignatureReferenceDictionary"), SignatureReferenceDictionary, true);
+    t!("Annot", K::M("Annot"), Annot, true);
+    t!("FieldDictionary", K::M("FieldDictionary"), FieldDictionary, true);
+    t!("AppearanceStreams", K::M("AppearanceStreams"), AppearanceStreams, false);
+    t!("NameDictionary", K::M("NameDictionary"), NameDictionary, false);
+    t!("FileSpec", K::M("FileSpec"), FileSpec, false);
+    t!("Files", K::M("Files"), Files<Ref<Stream<EmbeddedFile>>>, false);
+    t!("EmbeddedFile", K::M("EmbeddedFile"), EmbeddedFile, false);
+    t!("EmbeddedFileParamDict", K::M("EmbeddedFileParamDict"), EmbeddedFileParamDict, false);
+    t!("Outlines", K::M("Outlines"), Outlines, false);
+    t!("MarkInformation", K::M("MarkInformation"), MarkInformation, false);
+    t!("StructTreeRoot", K::M("StructTreeRoot"), StructTreeRoot, false);
+    t!("StructElem", K::M("StructElem"), StructElem, false);
+    t!("InfoDict", K::M("InfoDict"), InfoDict, false);
+    t!("Trailer", K::M("Trailer"), Trailer, false);
+    t!("XRefInfo", K::M("XRefInfo"), XRefInfo, false);
+    t!("LZWFlateParams", K::M("LZWFlateParams"), LZWFlateParams, false);
+    t!("DCTDecodeParams", K::M("DCTDecodeParams"), DCTDecodeParams, false);
+    t!("CCITTFaxDecodeParams", K::M("CCITTFaxDecodeParams"), CCITTFaxDecodeParams, false);
+    t!("JBIG2DecodeParams", K::M("JBIG2DecodeParams"), JBIG2DecodeParams, false);
+    t!("IccInfo", K::M("IccInfo"), IccInfo, false);
+    t!("TFont", K::M("TFont"), TFont, false);
+    t!("Type0Font", K::M("Type0Font"), Type0Font, false);
+    t!("CIDFont", K::M("CIDFont"), CIDFont, true);
+    t!("FontDescriptor", K::M("FontDescriptor"), FontDescriptor, false);
+    t!("FontStream3", K::M("FontStream3"), FontStream3, false);
+    // hand-written pairs
+    t!("Date", K::Date, Date, false);
+    t!("Rectangle", K::Rect, Rectangle, false);
+    t!("Matrix", K::Matrix, Matrix, false);
+    t!("Dest", K::Dest, Dest, false);
+    t!("MaybeNamedDest", K::MaybeNamedDest, MaybeNamedDest, false);
+    t!("Action", K::Action, Action, false);
+    t!("Encoding", K::Encoding, Encoding, false);
+    t!("NumberTree<PageLabel>", K::NumberTree(b(K::M("PageLabel"))), NumberTree<PageLabel>, false);
+    t!("NumberTree<i32>", K::NumberTree(b(K::Int(-5, 500))), NumberTree<i32>, false);
+    t!("Font", K::Font, Font, true);
+    t!("Font:Type1", K::FontSub("Type1"), Font, true);
+    t!("Font:TrueType", K::FontSub("TrueType"), Font, true);
+    t!("Font:Type0", K::FontSub("Type0"), Font, true);
+    t!("Font:CIDFontType0", K::FontSub("CIDFontType0"), Font, true);
+    t!("Font:CIDFontType2", K::FontSub("CIDFontType2"), Font, true);
+    t!("CidToGidMap", K::CidToGid, CidToGidMap, false);
+    t!("XObject", K::XObject, XObject, true);
+    t!("Pattern", K::Pattern, Pattern, false);
+    t!("ColorSpace", K::ColorSpace, ColorSpace, false);
+    t!("Content", K::Content, Content, false);
+    t!("AppearanceStreamEntry", K::ApEntry, AppearanceStreamEntry, false);
+    t!("PagesNode", K::PagesNode, PagesNode, true);
+    t!("PageRc", K::Ref(b(K::MT("Page")), true), PageRc, false);
+    t!("PagesRc", K::Ref(b(K::MT("PageTree")), true), PagesRc, false);
+    t!("FormXObject", K::Stream("FormDict", false), FormXObject, true);
+    t!("ImageXObject", K::Stream("ImageDict", false), ImageXObject, true);
+    // Stream<I>
+    t!("Stream<()>", K::Stream("", false), Stream<()>, false);
+    t!("Stream<ImageDict>", K::Stream("ImageDict", false), Stream<ImageDict>, true);
+    t!("Stream<FormDict>", K::Stream("FormDict", false), Stream<FormDict>, true);
+    t!("Stream<PostScriptDict>", K::Stream("PostScriptDict", false), Stream<PostScriptDict>, true);
+    t!("Stream<EmbeddedFile>", K::Stream("EmbeddedFile", false), Stream<EmbeddedFile>, false);
+    t!("Stream<FontStream3>", K::Stream("FontStream3", false), Stream<FontStream3>, false);
+    t!("Stream<IccInfo>", K::Stream("IccInfo", false), Stream<IccInfo>, false);
+    t!("Stream<XRefInfo>", K::Stream("XRefInfo", false), Stream<XRefInfo>, false);
+    t!("PdfStream", K::Stream("", false), PdfStream, false);
+    // containers and scalars
+    t!("Option<Date>", K::Date, Option<Date>, false);
+    t!("Option<Rectangle>", K::Rect, Option<Rectangle>, false);
+    t!("Vec<i32>", K::Many(b(K::Int(-1000, 1000)), true), Vec<i32>, false);
+    t!("Vec<Name>", K::Many(b(K::Name), true), Vec<Name>, false);
+    t!("Vec<f32>", K::Many(b(K::Real), true), Vec<f32>, false);
+    t!("Vec<PdfString>", K::Many(b(K::Str), true), Vec<PdfString>, false);
+    t!("Vec<StructElem>", K::Many(b(K::M("StructElem")), true), Vec<StructElem>, false);
+    t!("HashMap<Name,Rectangle>", K::Map(b(K::Rect)), HashMap<Name, Rectangle>, false);
+    t!("HashMap<Name,GraphicsStateParameters>", K::Map(b(K::M("GraphicsStateParameters"))), HashMap<Name, GraphicsStateParameters>, false);
+    t!("HashMap<Name,Lazy<Font>>", K::Map(b(K::Lazy(b(K::Font)))), HashMap<Name, Lazy<Font>>, false);
+    t!("(Ref<Font>,f32)", K::Pair(b(K::Ref(b(K::Font), false)), b(K::Real)), (Ref<Font>, f32), false);
+    t!("Box<ColorSpace>", K::ColorSpace, Box<ColorSpace>, false);
+    t!("MaybeRef<Resources>", K::MaybeRef(b(K::M("Resources"))), MaybeRef<Resources>, false);
+    t!("MaybeRef<Annot>", K::MaybeRef(b(K::M("Annot"))), MaybeRef<Annot>, false);
+    t!("RcRef<FieldDictionary>", K::Ref(b(K::M("FieldDictionary")), true), RcRef<FieldDictionary>, false);
+    t!("Ref<Page>", K::Ref(b(K::MT("Page")), false), Ref<Page>, false);
+    t!("Lazy<Font>", K::Lazy(b(K::Font)), Lazy<Font>, false);
+    t!("Lazy<Vec<MaybeRef<Annot>>>", K::Lazy(b(K::Many(b(K::MaybeRef(b(K::M("Annot")))), false))), Lazy<Vec<MaybeRef<Annot>>>, false);
+    t!("Primitive", K::Prim, Primitive, false);
+    t!("Dictionary", K::Dict, Dictionary, false);
+    t!("PdfString", K::Str, PdfString, false);
+    t!("Name", K::Name, Name, false);
+    t!("i32", K::Int(-100000, 100000), i32, false);
+    t!("u32", K::UInt(100000), u32, false);
+    t!("usize", K::UInt(100000), usize, false);
+    t!("f32", K::Real, f32, false);
+    t!("bool", K::Bool, bool, false);
+    // derived name / integer enums
+    t!("Counter", K::NameEnum(COUNTER, false), Counter, false);
+    t!("RenderingIntent", K::NameEnum(RENDERING_INTENT, false), RenderingIntent, false);
+    t!("FieldType", K::NameEnum(FIELD_TYPE, false), FieldType, false);
+    t!("Trapped", K::NameEnum(TRAPPED, false), Trapped, false);
+    t!("StructType", K::NameEnum(STRUCT_TYPE, true), StructType, false);
+    t!("FontStretch", K::NameEnum(FONT_STRETCH, false), FontStretch, false);
+    t!("FontType", K::NameEnum(FONT_TYPE, false), FontType, false);
+    t!("FontTypeExt", K::NameEnum(FONT_TYPE_EXT, false), FontTypeExt, false);
+    t!("BaseEncoding", K::NameEnum(BASE_ENCODING, true), BaseEncoding, false);
+    t!("LineCap", K::IntEnum(&[0, 1, 2]), LineCap, false);
+    t!("LineJoin", K::IntEnum(&[0, 1, 2]), LineJoin, false);
+    v
+}
+
+#[derive(Clone, Debug)]
+pub struct Failure {
+    pub class: &'static str,
+    /// signature components after "C15|"
+    pub sig_mid: String,
+    pub what: String,
+}
+
+pub enum Res { Pass, Rejected(String), Fail(Failure) }
+
+pub struct Eval {
+    pub res: Res,
+    pub labels: Vec<&'static str>,
+    pub tape: Vec<u32>,
+    /// only filled when asked for
+    pub witness: Value,
+    pub n_objects: u32,
+    pub covered: bool,
+}
+
+fn dump_store(st: &St, n: u32) -> Value {
+    let mut v = Vec::new();
+    for id in 1..=(n as u64).min(40) {
+        let s = match st.resolver().resolve(PlainRef { id, gen: 0 }) { Ok(p) => render(&p), Err(e) => format!("<{}>", e) };
+        v.push(json!(format!("{} 0 obj {}", id, s.chars().take(400).collect::<String>())));
+    }
+    Value::Array(v)
+}
+
+fn err_tag(e: &PdfError) -> String {
+    let f = error_fields(e);
+    match f.last() { Some(x) => format!("{}:{}", root_kind(e), x), None => root_kind(e) }
+}
+
+/// build p0 from the tape and run both oracles; `given` bypasses the generator
+fn evaluate(t: &Target, mut src: Src, given: Option<Primitive>, want_wit: bool) -> Eval {
+    let mut st = new_store();
+    let (p0, n_objects) = match given {
+        Some(p) => (p, 0),
+        None => { let mut g = Gen::new(&mut src, &mut st); let p = g.top(&t.k); (p, g.n_objects) }
+    };
+    let labels = { let mut l = src.labels.clone(); l.sort(); l.dedup(); l };
+    let label_set = labels.join("+");
+    let tape = src.tape[..src.used().min(src.tape.len())].to_vec();
+    let mut wit = if want_wit {
+        json!({"target": t.name, "labels": labels, "p0": render(&p0), "tape": tape, "store_before": dump_store(&st, n_objects)})
+    } else { Value::Null };
+    let mut covered = false;
+    let res = (|| {
+        let err_mid = |lbl: &str, e: &PdfError| format!("{}|{}", t.name, if lbl.is_empty() { err_tag(e) } else { lbl.to_string() });
+        let p1 = match (t.rt)(&p0, &mut st) {
+            Ok(p) => p,
+            Err(Fail::ReadErr(e)) => return Res::Rejected(format!("{}", e)),
+            Err(Fail::ReadPanic(pa)) => return Res::Fail(Failure { class: "panic", sig_mid: pa.signature(), what: format!("{}::from_primitive panicked: {}", t.name, pa.describe()) }),
+            Err(Fail::WritePanic(pa)) => return Res::Fail(Failure { class: "panic", sig_mid: pa.signature(), what: format!("{}::to_primitive panicked: {}", t.name, pa.describe()) }),
+            Err(Fail::WriteErr(e)) => return Res::Fail(Failure { class: "write-error", sig_mid: err_mid(&label_set, &e), what: format!("{}::to_primitive of a value it just read fails: {}", t.name, e) }),
+        };
+        if want_wit { wit["p1"] = json!(render(&p1)); }
+        let p2 = match (t.rt)(&p1, &mut st) {
+            Ok(p) => p,
+            Err(Fail::ReadErr(e)) => return Res::Fail(Failure { class: "own-output-unreadable", sig_mid: err_mid(&label_set, &e), what: format!("{}::from_primitive rejects what {}::to_primitive wrote: {}", t.name, t.name, e) }),
+            Err(Fail::ReadPanic(pa)) => return Res::Fail(Failure { class: "panic", sig_mid: pa.signature(), what: format!("{}::from_primitive panicked on the writer's output: {}", t.name, pa.describe()) }),
+            Err(Fail::WritePanic(pa)) => return Res::Fail(Failure { class: "panic", sig_mid: pa.signature(), what: format!("{}::to_primitive panicked on the second pass: {}", t.name, pa.describe()) }),
+            Err(Fail::WriteErr(e)) => return Res::Fail(Failure { class: "write-error", sig_mid: err_mid(&label_set, &e), what: format!("{}::to_primitive fails on the second pass: {}", t.name, e) }),
+        };
+        if want_wit { wit["p2"] = json!(render(&p2)); }
+        let c = Cmp { st: &st };
+        if let Err(Diff { owner, field, class, detail }) = c.cmp(&t.k, &p1, &p2, Mode::Exact, t.name, "") {
+            return Res::Fail(Failure { class: "not-a-fixpoint", sig_mid: format!("{}|{}", owner, field),
+                what: format!("write(read(p1)) differs from p1 at {}/{} ({}): {}", owner, field, class, detail) });
+        }
+        if t.keeps_entries {
+            covered = true;
+            if let Err(Diff { owner, field, class, detail }) = c.cmp(&t.k, &p0, &p1, Mode::Covers, t.name, "") {
+                let cls = if class == "lost" { "entry-lost" } else { "entry-changed" };
+                return Res::Fail(Failure { class: cls, sig_mid: format!("{}|{}", owner, field),
+                    what: format!("entry of the input not preserved by read+write at {}/{}: {}", owner, field, detail) });
+            }
+        }
+        Res::Pass
+    })();
+    Eval { res, labels, tape, witness: wit, n_objects, covered }
+}
+
+fn signature(f: &Failure) -> String {
+    if f.class == "panic" { format!("C15|{}", f.sig_mid) } else { format!("C15|{}|{}", f.sig_mid, f.class) }
+}
+/// root-cause key used while shrinking: class + owner/field, but not the label set (which is what shrinking minimises)
+fn shrink_key(f: &Failure) -> String {
+    match f.class { "write-error" | "own-output-unreadable" => f.class.to_string(), _ => signature(f) }
+}
+
+fn tape_hash(t: &Target, tape: &[u32], given: &Option<Primitive>) -> u64 {
+    let mut h = fnv(t.name.as_bytes()) ^ fnv(&tape.iter().flat_map(|x| x.to_le_bytes()).collect::<Vec<u8>>());
+    if let Some(p) = given { h ^= fnv(format!("{}", p).as_bytes()); }
+    h
+}
+
+/// evaluate one case and book it; failures are shrunk (choice tape) before the signature is taken
+fn case(run: &Run, t: &Target, src: Src, given: Option<Primitive>, sample: bool) {
+    let ev = evaluate(t, src, given.clone(), false);
+    run.eval();
+    run.count(&format!("target:{}", t.name));
+    run.add("store-objects", ev.n_objects as u64);
+    if ev.covered { run.count("part-b-checked"); }
+    for l in &ev.labels { run.count(&format!("label:{}", l)); }
+    match ev.res {
+        Res::Pass => {
+            run.nontrivial(tape_hash(t, &ev.tape, &given));
+            if sample { let w = evaluate(t, Src::replay(&ev.tape), given, true).witness; run.sample_cap(14, || w); }
+        }
+        Res::Rejected(e) => {
+            run.count(&format!("rejected:{}", t.name));
+            let w = evaluate(t, Src::replay(&ev.tape), given, true).witness;
+            run.inconclusive(format!("{}: from_primitive rejects the generated input ({}) — schema/generator problem; labels={:?} p0={}", t.name, e, ev.labels, w["p0"]));
+        }
+        Res::Fail(f) => {
+            run.nontrivial(tape_hash(t, &ev.tape, &given));
+            run.count(&format!("failed:{}", f.class));
+            let key = shrink_key(&f);
+            let label_based = key == f.class;
+            // owner/field- and location-based signatures do not change under shrinking: shrink only the first witness
+            if !label_based && run.has_violation(&signature(&f)) { run.violation(&signature(&f), &f.what, Value::Null); return; }
+            if label_based {
+                // the signature of these classes carries the minimal label set: shrink thoroughly, but only the first few per (target, class)
+                let k2 = format!("{}|{}", t.name, f.class);
+                let seen = { let mut g = SHRUNK.lock().unwrap(); let e = g.entry(k2).or_insert(0); *e += 1; *e };
+                if seen > 8 { run.count(&format!("failed-not-shrunk:{}:{}", t.name, f.class)); return; }
+            }
+            let budget = if label_based { 3000 } else { 400 };
+            let small = if given.is_some() { ev.tape.clone() } else {
+                let mut fails = |cand: &[u32]| matches!(&evaluate(t, Src::replay(cand), None, false).res, Res::Fail(g) if shrink_key(g) == key);
+                let a = shrink(&ev.tape, &mut fails, budget);
+                if label_based { let b = shrink_blocks(&a, &mut fails, budget); shrink(&b, &mut fails, budget / 4) } else { a }
+            };
+            let e2 = evaluate(t, Src::replay(&small), given.clone(), true);
+            match e2.res {
+                Res::Fail(g) if shrink_key(&g) == key => run.violation(&signature(&g), &g.what, e2.witness),
+                _ => { let w = evaluate(t, Src::replay(&ev.tape), given, true).witness; run.violation(&signature(&f), &f.what, w) }
+            }
+        }
+    }
+}
+
+/// second shrinking stage: switch a choice off (draw := 0) AND delete the draws that only its taken branch consumed,
+/// so that the rest of the tape stays aligned (the generic shrinker does one or the other)
+fn shrink_blocks(tape: &[u32], fails: &mut dyn FnMut(&[u32]) -> bool, budget: usize) -> Vec<u32> {
+    let mut cur = tape.to_vec();
+    let mut calls = 0;
+    loop {
+        let mut improved = false;
+        let mut i = 0;
+        while i < cur.len() {
+            if cur[i] != 0 {
+                for del in 1..=10usize {
+                    if i + 1 + del > cur.len() || calls >= budget { break; }
+                    let mut cand = cur.clone();
+                    cand[i] = 0;
+                    cand.drain(i + 1..i + 1 + del);
+                    calls += 1;
+                    if fails(&cand) { cur = cand; improved = true; break; }
+                }
+            }
+            i += 1;
+        }
+        if !improved || calls >= budget { break; }
+    }
+    cur
+}
+
+static SHRUNK: once_cell::sync::Lazy<std::sync::Mutex<HashMap<String, u32>>> = once_cell::sync::Lazy::new(|| std::sync::Mutex::new(HashMap::new()));
+
+/// probes of values that are outside the statement because the library has no writer for them
+fn outside_probes(run: &Run) {
+    let mut out: Vec<Value> = UNWRITABLE.iter().map(|(a, b)| json!({"type": a, "why": b})).collect();
+    let mut probe = |label: &str, f: &mut dyn FnMut(&mut St) -> Result<Primitive, Fail>| {
+        let mut st = new_store();
+        let r = match f(&mut st) {
+            Ok(p) => format!("written: {}", p),
+            Err(Fail::ReadErr(e)) => format!("read error: {}", e),
+            Err(Fail::WriteErr(e)) => format!("write error: {}", e),
+            Err(Fail::ReadPanic(p)) => format!("read panic: {}", p.describe()),
+            Err(Fail::WritePanic(p)) => format!("write panic: {}", p.describe()),
+        };
+        out.push(json!({"probe": label, "observed": r}));
+    };
+    probe("NameTree<Primitive> leaf", &mut |st| {
+        let mut d = Dictionary::new();
+        d.insert("Names", arr(vec![pstr(b"a"), int(1)]));
+        rt::<NameTree<Primitive>>(&Primitive::Dictionary(d), st)
+    });
+    probe("Font /Subtype /Type3", &mut |st| {
+        let mut d = Dictionary::new();
+        d.insert("Type", name("Font")); d.insert("Subtype", name("Type3"));
+        rt::<Font>(&Primitive::Dictionary(d), st)
+    });
+    run.extra("outside_statement", Value::Array(out));
+}
+
+pub fn run(run: &Run) {
+    run.rule("cases: (target model, choice tape) -> dictionary generated from the hand-written schema table (c15_schema.rs) into a real pdf::file::Storage; \
+        phase A enumerates EVERY subset of the optional fields of every struct model with <= 12 optional fields (remaining choices seeded), \
+        phase B draws seeded cases round-robin over all targets (optional fields present 1/2 at top level, 1/3 nested; explicit defaults; arrays with 0/1/n \
+        elements and bare single values where the specification allows them; nested models direct or indirect; unknown extra entries for models with a catch-all); \
+        oracle (a) write(read(p1)) == p1 where p1 = write(read(p0)), (b) for models that keep unrecognised entries every entry of p0 is in p1 (up to omitted defaults, \
+        int==real, and representations the specification defines as equivalent); distinct_nontrivial = distinct (target, tape) pairs that were accepted by the reader");
+    run.assume("the schema table transcribes /repo/pdf/src faithfully (a reader rejecting a generated input is reported as inconclusive, never as a violation)");
+    run.assume("part (b) treats as equal: bare value vs one-element array for one-or-many entries, two spellings of the same date (missing zone == UT per ISO 32000-2), \
+        direct vs indirect objects, null vs absent, empty name-keyed map vs absent, /BaseEncoding absent vs the library's own marker /None");
+    run.assume("values the library cannot write at all (list under outside_statement in the evidence) are outside the statement and are not generated");
+    let ts = targets();
+    outside_probes(run);
+
+    // ---- enum sweeps: every variant of every derived enum
+    for t in &ts {
+        match &t.k {
+            K::NameEnum(vars, other) => {
+                let mut all: Vec<String> = vars.iter().map(|s| s.to_string()).collect();
+                if *other { all.push("SomethingElse".into()); all.push("".into()); }
+                for v in all { case(run, t, Src::replay(&[]), Some(name(&v)), false); }
+                run.exhaustive(&format!("all variants of name enum {}", t.name), true);
+            }
+            K::IntEnum(vals) => {
+                for v in vals.iter() { case(run, t, Src::replay(&[]), Some(int(*v)), false); }
+                run.exhaustive(&format!("all variants of integer enum {}", t.name), true);
+            }
+            _ => {}
+        }
+    }
+
+    // ---- phase A: every subset of optional fields (top-level model) for models with <= 12 optional fields
+    let mut jobs: Vec<(usize, u32, u32)> = Vec::new(); // (target, n_opt, mask)
+    let mut skipped: Vec<String> = Vec::new();
+    for (ti, t) in ts.iter().enumerate() {
+        let mname: Option<String> = match &t.k {
+            K::M(n) | K::MT(n) => Some(n.to_string()),
+            K::Stream(n, _) if !n.is_empty() => Some(n.to_string()),
+            K::FontSub(s) => Some(format!("Font:{}", s)),
+            _ => None,
+        };
+        let Some(mname) = mname else { continue };
+        let n = model(&mname).n_optional() as u32;
+        if n == 0 { continue; }
+        if n > 12 { skipped.push(format!("{} ({} optional fields: random subsets only)", t.name, n)); continue; }
+        for mask in 0..(1u32 << n) { jobs.push((ti, n, mask)); }
+    }
+    run.extra("phase_a_cases", json!(jobs.len()));
+    run.extra("phase_a_not_enumerated", json!(skipped));
+    par_for(jobs.len() as u64, |i| {
+        let (ti, n, mask) = jobs[i as usize];
+        let t = &ts[ti];
+        let mut src = Src::fresh(Rng::derive(run.seed, 1500 + ti as u64, mask as u64));
+        src.tape = (0..n).map(|b| (mask >> b) & 1).collect();
+        case(run, t, src, None, false);
+    });
+    run.exhaustive("optional-field subsets of every struct model with <= 12 optional fields", true);
+
+    // ---- phase B: seeded cases, round-robin over all targets
+    let n = run.n(60_000, 3_000_000);
+    par_for(n, |i| {
+        let t = &ts[(i % ts.len() as u64) as usize];
+        case(run, t, Src::fresh(Rng::derive(run.seed, 15, i)), None, i < 4 * ts.len() as u64 && i % 11 == 0);
+    });
+    run.extra("targets", json!(ts.iter().map(|t| t.name).collect::<Vec<_>>()));
+    run.extra("models_in_schema", json!(MODELS.len()));
+}
